@@ -11,13 +11,12 @@
 
   Types2Rfc     oracle: the same cases judged against the RFC 7950 section 9 / RFC 4648 reading written in Python.
 
-Tags of the listed findings (known_findings.d/types2.json); anything else is reported untagged (None):
-  binary-pad-bits       base64 text with non-zero unused bits kept as canonical string (equal values, different strings)
+Tag of the one listed finding (known_findings.d/types2.json); anything else is reported untagged (None):
   union-member-eq       union values of different member types with the same canonical string are not equal
-  str-nonchar           noncharacters U+FDD0..FDEF / U+nFFFE,F accepted in strings
-  yang-plane4-char      the YANG parser rejects plane-4 characters (schema default differs from data)
-  dt-str2time-overread  ly_time_str2time reads past the end of a truncated date-and-time value (ASan runs)
-  json-int64-base0      retired: fixed in /repo by 5c9a53f (a reappearance is reported as a violation)
+Retired tags (fixed in /repo, the regression cases stay in the generators and a reappearance is a violation):
+  binary-pad-bits c0ee3aa (non-zero unused base64 bits: canonical string now re-encoded), str-nonchar d2cc93f
+  (noncharacters refused by ly_getutf8/ly_checkutf8), yang-plane4-char f25b870, dt-str2time-overread 9ddb75e,
+  json-int64-base0 5c9a53f.
 
 Type names are those of the table TYPES in impl/t_types2.c (module types2, prefix t2)."""
 import base64
@@ -514,10 +513,7 @@ class SourceIndep:
         vx = vj if f[3] == "=" else unhex(f[3])
         if out.startswith("CRASH") or out == "TIMEOUT":
             err = getattr(self, "last_err", "")
-            tag = None
-            if T == "dt" and out.startswith("CRASH") and "ly_time_str2time" in err and "AddressSanitizer" in err:
-                tag = "dt-str2time-overread"
-            return tag, "value %r of type %s: %s %s" % (vj, T, out, err[-1500:])
+            return None, "value %r of type %s: %s %s" % (vj, T, out, err[-1500:])
         tok = dict(t.split("=", 1) for t in out.split(" ") if "=" in t)
         if "vv" not in tok or tok["vv"] in ("?", "NA"):
             return None, "driver failure on %r (%s): %s" % (vj, T, out[:300])
@@ -547,16 +543,9 @@ class SourceIndep:
         return None
 
     def tag(self, T, vj, tok, bad):
-        """narrow tags of the listed findings (known_findings.d/types2.json); anything else is unexpected (None)"""
-        srcs = {b.split("=")[0].split(" ")[0] for b in bad}
-        if T in ("u64r", "i64", "un3") and srcs <= set(JSTR) and re.match(rb"[ \t\n\r]*[+-]?0[xX0-9]", vj):
-            return "json-int64-base0"
-        if T == "bin" and srcs <= {"ct", "lyb"} and nonzero_pad_bits(vj):
-            return "binary-pad-bits"
-        if srcs <= set(DFAM) and tok.get("vv") != "E" and is_yang_text(vj) and any(0x40000 <= ord(ch) <= 0x4FFFD for ch in vj.decode("utf-8")):
-            return "yang-plane4-char"
+        """no listed finding concerns source independence any more (json-int64-base0, binary-pad-bits,
+        yang-plane4-char were fixed in /repo): every disagreement is unexpected"""
         return None
-
 
 def show(r):
     if r is None:
@@ -830,12 +819,7 @@ def rfc_witness(line, o):
         want = rfc_line(T, s)
         if o == want:
             return None
-        tag = None
-        if T in ("s", "sl") and want == "E" and o == hexs(s) and has_nonchar(s):
-            tag = "str-nonchar"
-        if T == "bin" and nonzero_pad_bits(s) and want != "E" and o.split(" ")[1:] == want.split(" ")[1:] and o.split(" ")[0] == hexs(b64_strip_nl(s)):
-            tag = "binary-pad-bits"
-        return tag, "value %r of %s: implementation %s, RFC 7950 %s" % (s, T, o, want)
+        return None, "value %r of %s: implementation %s, RFC 7950 %s" % (s, T, o, want)
     if f[0] == "cmp":
         a, b = unhex(f[2]), unhex(f[3])
         ra, rb = rfc_tv(T, a), rfc_tv(T, b)
@@ -848,8 +832,6 @@ def rfc_witness(line, o):
         if o == want:
             return None
         tag = None
-        if T == "bin" and want != "E" and (nonzero_pad_bits(a) or nonzero_pad_bits(b)):
-            tag = "binary-pad-bits"
         if T in ("un", "un2") and want == "0" and ra[1] != rb[1] and o == "1 SINGLE=0":
             tag = "union-member-eq"
         return tag, "compare of %r and %r on %s: implementation %s, expected %s (canonical strings %r / %r)" % (
@@ -871,31 +853,8 @@ def rfc_witness(line, o):
             want = " ".join(hexs(rfc_tv(T, x)[0]) for x in seq)
         if o == want:
             return None
-        tag = None
-        if T == "bin" and want != "E" and any(nonzero_pad_bits(x) for x in vals):
-            tag = "binary-pad-bits"
-        return tag, "sorted insertion of %r on %s: implementation %s, expected %s" % (vals, T, o, want)
+        return None, "sorted insertion of %r on %s: implementation %s, expected %s" % (vals, T, o, want)
     return None
-
-
-def has_nonchar(s):
-    """valid UTF-8 of scalar values without forbidden controls whose only problem is a Unicode noncharacter"""
-    try:
-        t = s.decode("utf-8")
-    except UnicodeDecodeError:
-        return False
-    bad = [c for c in t if not gens.is_yang_char(ord(c))]
-    return bool(bad) and all(0xFDD0 <= ord(c) <= 0xFDEF or (ord(c) & 0xFFFE) == 0xFFFE and ord(c) > 0xFFFF for c in bad)
-
-
-def b64_strip_nl(s):
-    if len(s) > 64 and s[64:65] == b"\n":
-        out = b""
-        while len(s) > 64:
-            out += s[:64]
-            s = s[65:]
-        return out + s
-    return s
 
 
 class Types2Rfc:
